@@ -451,8 +451,10 @@ func TestVerif_C21(t *testing.T) {
 	if c.Thorough() {
 		schemas = []int{0, 1, 2}
 	}
+	nShards := c.Pick(6, 8) // data shards are subsets of {0..nShards-1}
+	c.Bound("shard_universe", nShards)
 	for _, s := range schemas {
-		for m := 0; m < 64; m++ {
+		for m := 0; m < 1<<uint(nShards); m++ {
 			jobs = append(jobs, hjob{s, m})
 		}
 	}
@@ -464,7 +466,7 @@ func TestVerif_C21(t *testing.T) {
 	vx.ParallelFor(len(jobs), func(i int) {
 		j := jobs[i]
 		var shards []uint64
-		for b := 0; b < 6; b++ {
+		for b := 0; b < nShards; b++ {
 			if j.mask&(1<<uint(b)) != 0 {
 				shards = append(shards, uint64(b))
 			}
@@ -476,7 +478,7 @@ func TestVerif_C21(t *testing.T) {
 		}
 		defer hh.h.Close()
 		// cleanup runs on the richest schema of the tier (all fields and views present)
-		cleanup := j.schema == schemas[len(schemas)-1]
+		cleanup := j.schema == schemas[len(schemas)-1] || c.Thorough()
 		c21RunHolder(c, hh, 6, cleanup, &plans, &cleans)
 	})
 	c.Extra("plans", plans)
